@@ -4,6 +4,7 @@ from __future__ import annotations
 
 import re
 from itertools import cycle
+from unicodedata import decimal
 
 __all__ = ["natural_comparison_key"]
 
@@ -16,6 +17,18 @@ def natural_comparison_key(key: str) -> tuple:
     See: https://en.wikipedia.org/wiki/Natural_sort_order
     """
     return tuple(
-        (int(part), part) if is_digit else part
+        (*numeric_order(part), part) if is_digit else part
         for part, is_digit in zip(_re_digits.split(key), cycle((False, True)))
     )
+
+
+def numeric_order(digits: str) -> tuple[int, str]:
+    """Get a key that orders runs of decimal digits by their numeric value.
+
+    This gives the same order as ``int(digits)``, but also works for runs of
+    digits beyond the limit for the integer string conversion.
+    """
+    if not digits.isascii():
+        digits = "".join(str(decimal(digit)) for digit in digits)
+    digits = digits.lstrip("0")
+    return len(digits), digits
